@@ -67,7 +67,7 @@ func base(cp []wm.CPort, p polv) *wm.World {
 		WLs: []wm.Workload{
 			{Kind: "Deployment", NS: "ns1", Name: "w1", Labels: map[string]string{"app": "a", "tier": "x"}, Ports: cp, Replicas: 1},
 			{Kind: "Deployment", NS: "ns1", Name: "w2", Labels: map[string]string{"app": "b"}, Ports: cportAlpha[0], Replicas: 2},
-			{Kind: "Deployment", NS: "ns2", Name: "w3", Labels: map[string]string{"app": "a"}, Ports: cportAlpha[0], Replicas: 1},
+			{Kind: "Deployment", NS: "ns2", Name: "w1", Labels: map[string]string{"app": "a"}, Ports: cportAlpha[0], Replicas: 1},
 		}, NPs: p.nps, ANPs: p.anps, BANP: p.banp}
 }
 
